@@ -248,3 +248,38 @@ fn as_col_names<'a>(cids: &'a HashSet<CId>, ctx: &'a AnchorContext) -> Vec<&'a s
         })
         .collect_vec()
 }
+
+/// Verification hook (feature `verif`): run `deduplicate_select_items` on plain data.
+#[cfg(feature = "verif")]
+pub(super) fn verif_dedup(items: Vec<(String, Vec<String>)>) -> Vec<usize> {
+    use sqlparser::ast::Ident;
+    // tag every item with its index through a value that survives `retain`
+    let mut sel: Vec<SelectItem> = items
+        .iter()
+        .enumerate()
+        .map(|(i, (kind, ids))| match kind.as_str() {
+            "compound" => SelectItem::UnnamedExpr(sql_ast::Expr::CompoundIdentifier(
+                ids.iter().map(|s| Ident::new(s.clone())).collect(),
+            )),
+            "alias" => SelectItem::ExprWithAlias {
+                expr: sql_ast::Expr::Value(sql_ast::Value::Number(i.to_string(), false).into()),
+                alias: Ident::new(ids[0].clone()),
+            },
+            _ => SelectItem::UnnamedExpr(sql_ast::Expr::Value(
+                sql_ast::Value::Number(i.to_string(), false).into(),
+            )),
+        })
+        .collect();
+    let before = sel.clone();
+    deduplicate_select_items(&mut sel);
+    // recover indices: `retain` keeps order, so walk both lists
+    let mut kept = Vec::new();
+    let mut j = 0;
+    for (i, it) in before.iter().enumerate() {
+        if j < sel.len() && &sel[j] == it {
+            kept.push(i);
+            j += 1;
+        }
+    }
+    kept
+}
